@@ -213,7 +213,8 @@ template <class T>
 IMATH_HOSTDEVICE IMATH_CONSTEXPR14 inline bool
 Interval<T>::intersects (const Interval<T>& interval) const IMATH_NOEXCEPT
 {
-    return interval.max >= min && interval.min <= max;
+    return !isEmpty () && !interval.isEmpty () && interval.max >= min &&
+           interval.min <= max;
 }
 
 template <class T>
